@@ -59,10 +59,8 @@ impl TableBuilder for PostgresQueryBuilder {
                     format!("varbit({length})")
                 }
                 ColumnType::Boolean => "bool".into(),
-                ColumnType::Money(precision) => match precision {
-                    Some((precision, scale)) => format!("money({precision}, {scale})"),
-                    None => "money".into(),
-                },
+                // PostgreSQL's money type takes no type modifier
+                ColumnType::Money(_) => "money".into(),
                 ColumnType::Json => "json".into(),
                 ColumnType::JsonBinary => "jsonb".into(),
                 ColumnType::Uuid => "uuid".into(),
